@@ -232,7 +232,10 @@ PROPS = {
                       "part on the exact timeline), C14_until_exact_elapsed (largest unit hours..seconds: the exact elapsed time, zone "
                       "irrelevant), C14_start_of_day_first (first instant reading midnight) and C14_start_of_day_gap (skipped "
                       "midnight, any gap size: the transition instant, equal to the specification's first instant of the day), "
-                      "C14_hours_in_day; for rounding relative to a zoned date-time C14_zoned_time_rounding (NudgeToZonedTime: the time "
+                      "C14_hours_in_day; for rounding relative to a zoned date-time C14_until_rounded_reaches_other (end to end: the date "
+                      "part DifferenceZonedDateTime returns leads, by add, to the start of the local-day bracket, its time part reaches "
+                      "the other instant exactly from there, and the rounded result leads to an instant less than two steps - one on "
+                      "whole-step days - from the other instant) on top of C14_zoned_time_rounding (NudgeToZonedTime: the time "
                       "part is a multiple of the step, a day is added exactly when the rounded time reaches the end of the real local "
                       "day - 23, 24, 25 h ... - and then only the excess over that day is rounded again; the reported instant is the "
                       "bracket end plus the time part and lies within one step, or two on a day that is not a whole number of steps, of "
